@@ -201,13 +201,18 @@ def float_tests(body, cfg, bb, tr, vlocal):
     return pos, neg
 
 
+# further numeric key texts other Conjure implementations (and this one's Display) produce: exponents with a sign, fractions below
+# one, and the long exponent-free spellings of very large / very small doubles
+NUMERIC_KEY_TEXTS = ["1e+3", "1E+21", "1e-3", "0.5", "-0.125", "1" + "0" * 39, "0." + "0" * 40 + "1"]
+
+
 def check_float_writer(ctx, c, body, who):
     """serialize_f32/f64 of a JSON behaviour as a decision table: the function is evaluated by constant propagation for NaN,
     +inf, -inf and finite values (local helpers and sibling behaviours interpreted along the path); the call it ends in is
     the verdict.  Independent of how the tests are arranged (if-chain, early return, helper returning Option<&str>)."""
     from .. import minterp
     I = minterp.Interp(ctx.F, c, inline=lambda d_, rid: rid != body.id and rid.startswith("conjure_serde::"), max_depth=3)
-    cases = [("NaN", float("nan"), "NaN"), ("NaN", -float("nan"), "NaN"), ("inf", float("inf"), "Infinity"), ("-inf", float("-inf"), "-Infinity"), ("finite", 1.5, None), ("finite", -0.0, None), ("finite", 1e300, None)]
+    cases = [("NaN", float("nan"), "NaN"), ("NaN", -float("nan"), "NaN"), ("inf", float("inf"), "Infinity"), ("-inf", float("-inf"), "-Infinity"), ("finite", 1.5, None), ("finite", -0.0, None), ("finite", 1e300, None), ("finite", -1e39, None), ("finite", 5e-324, None)]
     bad, rows = [], []
     for label, v, spelling in cases:
         try:
@@ -359,7 +364,7 @@ def float_reader_table(ctx, c, body, who, width, rule):
     I = minterp.Interp(F, c, inline=lambda d_, rid: rid.startswith(crate_prefix) and rid != body.id, max_depth=4)
     rows = []
     try:
-        for text in list(SPELL) + ["x", "nan", "inf", "-inf", "infinity", "", "1.5", "12"]:
+        for text in list(SPELL) + ["x", "nan", "inf", "-inf", "infinity", "", "1.5", "12"] + NUMERIC_KEY_TEXTS:
             args = [("sym", f"a{k}") for k in range(1, body.argc + 1)]
             args[slot - 1] = inject(body.local_ty(slot), text)
             rows.append((text, I.run(body, args)))
@@ -381,7 +386,7 @@ def float_reader_table(ctx, c, body, who, width, rule):
         elif " key " in f" {who} ":
             # map keys are always strings on the wire: a numeric text is parsed with the language's own (exact, round-tripping)
             # float parser — the inverse of the Display the key writer uses; texts that are not numbers are not floats
-            if text in ("1.5", "12"):
+            if text in ("1.5", "12") or text in NUMERIC_KEY_TEXTS:
                 ctx.check(is_visit and r[2] and isinstance(r[2][-1], float) and r[2][-1] == float(text), rule, body.loc(), f"{who}|reads|numeric-key",
                           f"{who}: the key text {text!r} produces {minterp.show(I, r)[:80]}; it must be parsed with str::parse::<{width}>() (the exact inverse of the writer's Display) and handed to visit_{width}", instance=f"{who}: numeric key text -> str::parse -> visit_{width}")
             elif text in ("x", ""):
@@ -714,6 +719,50 @@ def run_forwarders(ctx, c):
     ctx.floor("R1.7", "forwarding methods", n, 27 + 31 + 31 + 4 + 6)
 
 
+def run_human_readable(ctx, c):
+    """R1.9: serde's `is_human_readable` (provided default: true) decides how format-sensitive types encode themselves (a uuid
+    is 16 raw bytes in a binary format and text in a readable one).  Writer and reader must answer alike at every nesting
+    level: an entry serializer / deserializer states its format's constant (JSON true, Smile false) and every wrapper
+    forwards the wrapped one's answer — a wrapper relying on the default answers `true` inside Smile and the value written
+    under it cannot be read back."""
+    n = 0
+    consts = {}
+    for i in c.impls:
+        if i.get("trait") not in ("serde_core::ser::Serializer", "serde_core::de::Deserializer", "serde::ser::Serializer", "serde::de::Deserializer"):
+            continue
+        n += 1
+        st = tystr(i.get("self_ty") or {})
+        side = "serializer" if i["trait"].endswith("Serializer") and "::ser::" in i["trait"] else "deserializer"
+        entry = st.startswith("&mut ") and ("::json::" in st or "::smile::" in st)
+        fmt = "json" if "::json::" in st else "smile" if "::smile::" in st else None
+        where = f"{i['file'].split('/repo/')[-1]}:{i['line']}"
+        mid = (i.get("items") or {}).get("is_human_readable")
+        b = c.body(mid) if mid else None
+        key = f"{st}|{side}|is_human_readable"
+        if b is None:
+            if entry and fmt == "json":
+                ctx.ok("R1.9", where, f"{st}: JSON {side} keeps serde's default (human readable)")
+                consts[(fmt, side)] = True
+                continue
+            ctx.violation("R1.9", where, key, f"{st} ({side}) does not define is_human_readable: serde's default answers `true`, so a format-sensitive value (uuid) nested under this {'wrapper' if not entry else 'entry point'} "
+                          f"is {'written' if side == 'serializer' else 'read'} in its text form even in Smile, where the other side uses the binary form — it does not round-trip")
+            continue
+        fwd = [t for _, t in b.calls() if t["call"]["name"] == "is_human_readable"]
+        const = None
+        for bb, j, s_ in b.stmts():
+            if place_local(s_["d"]) == 0 and "use" in s_["r"] and isinstance(s_["r"]["use"].get("c"), dict) and "bool" in s_["r"]["use"]["c"]:
+                const = s_["r"]["use"]["c"]["bool"]
+        if entry:
+            want = fmt == "json"
+            ok = (const is want and not fwd) or (fwd and const is None)
+            consts[(fmt, side)] = const if const is not None else "forwarded"
+            ctx.check(ok, "R1.9", b.loc(), key, f"{st}: is_human_readable must answer {str(want).lower()} for {fmt} (found {'a forwarded answer' if fwd else const})", instance=f"{st}: {fmt} {side} answers {str(want).lower()}")
+        else:
+            ctx.check(bool(fwd) and const is None, "R1.9", b.loc(), key, f"{st}: a wrapper must forward the wrapped {side}'s is_human_readable (found {'constant ' + str(const) if const is not None else 'no forwarding call'})",
+                      instance=f"{st}: forwards is_human_readable")
+    ctx.floor("R1.9", "Serializer / Deserializer impls in conjure_serde", n, 6)
+
+
 def run(ctx):
     ctx.explanation = EXPLANATION
     ctx.assumptions = ["rustc type checking / trait resolution (facts are the compiler's own MIR)",
@@ -726,6 +775,9 @@ def run(ctx):
     run_spellings(ctx, c, res)
     run_end(ctx, c)
     run_forwarders(ctx, c)
+    run_human_readable(ctx, c)
+    from .. import tls as _tls
+    _tls.check(ctx, c, "R1.10", "every call must round-trip whatever happened before on the same thread")
     # ---------------- R1.8 the server-side behaviour wrapper forwards every serde method to the same-named method
     from . import c05
     ctx.include(c05, {"R5.1"}, "R1.8", "values decoded by the server deserializers must equal those of the client deserializers (a behaviour method forwarding to a different inner method changes the decoded value on the server only)")
